@@ -254,6 +254,8 @@ SMALL_BEHS = ["", "u=2", "l=no", "f=no", "u=0"]
 
 
 class Case:
+    oracle_only = False
+
     def __init__(self, name):
         self.name, self.lines, self.bodies, self.tags = name, [], {}, []
 
@@ -433,6 +435,34 @@ def gen_outq_cases():
                         cs.add("stop")
                         cs.tags = ["outq-" + kind, mode]
                         out.append(cs)
+    return out
+
+
+def gen_poolfull_cases(thorough):
+    """"pool nearly full + late error reply": an automatic error reply after the application has seen the
+    request (handler call, or only the URI log), with the arena filled by a padding header so that the first
+    build_header_response() of the error reply fails for some paddings ("No memory. Release everything").
+    Where exactly the pool runs out is pool arithmetic (C08), so these histories are judged by the oracle
+    only: completion exactly once, strings stable until completion, nothing left open."""
+    out = []
+    for mem, lo, hi in ((256, 0, 60), (512, 150, 420), (1024, 560, 900)):
+        step = 1 if thorough else (2 if mem == 256 else 5)
+        for pad in range(lo, hi, step):
+            for kind in ("badchunk", "badhdr"):
+                mode = ("select", "epoll")[(pad // step) % 2]
+                cs = Case("poolfull-%s-m%d-p%d-%s" % (kind, mem, pad, mode))
+                cs.oracle_only = True
+                cs.add("case " + cs.name, "cfg mode=%s mem=%d timeout=0 suspend=1 urilog=1" % (mode, mem), "start", "arrive 0 1")
+                padhdr = (b"X-Pad: " + b"p" * pad + b"\r\n") if pad else b""
+                if kind == "badchunk":
+                    req = b"POST /u HTTP/1.1\r\nHost: h\r\n" + padhdr + b"Transfer-Encoding: chunked\r\n\r\n3\r\nabc\r\nzz\r\n"
+                    cs.bodies[(0, 0)] = b"abc"
+                else:
+                    req = b"GET /a HTTP/1.1\r\nHost: h\r\n" + padhdr + b"Content-Length: x\r\n\r\n"
+                    cs.bodies[(0, 0)] = b""
+                cs.add("send 0 " + _hx(req), "settle 90", "stop")
+                cs.tags = ["poolfull-" + kind, mode]
+                out.append(cs)
     return out
 
 
@@ -796,6 +826,13 @@ class Spec:
                 continue
             if not complete:
                 continue
+            if cs.oracle_only:
+                stats["oracle_only"] += 1
+                # the completion callback runs in state FULL_REQ_RECEIVED only in the "release everything" branch
+                if any(l.startswith("completed ") and " state=%d " % [k for k, v in SITE_OF_STATE.items() if v == "final"][0] in l + " "
+                       for l in hl):
+                    stats["release_everything_hits"] += 1
+                continue
             hp, hs, hf = canon(hl, True)
             mp, ms, mf = canon(ml, False)
             for l in ml:
@@ -833,7 +870,7 @@ class Spec:
     def explore(self, ctx, boost):
         failures = []
         stats = {"cases": 0, "oracle_rejects": 0, "diffs": 0, "strict_drift": 0, "codes": {}, "states": {}, "sigs": set(),
-                 "handler_calls": 0}
+                 "handler_calls": 0, "oracle_only": 0, "release_everything_hits": 0}
         thorough = ctx.tier == "thorough"
         cases = []
         cdir = os.path.join(vlib.VERIF, "corpus", "sm")
@@ -848,6 +885,8 @@ class Spec:
         nfault = len(cases) - ncorp
         cases += gen_outq_cases()
         noutq = len(cases) - ncorp - nfault
+        cases += gen_poolfull_cases(thorough)
+        npool = len(cases) - ncorp - nfault - noutq
         # bounded-exhaustive: one action at every placement x every handler behaviour, on every shape
         placements = []
         shapes = NORMAL_SHAPES + SMALL_SHAPES
@@ -890,12 +929,14 @@ class Spec:
                        "fragments and actions; plus fixed fault-injection scripts and scripts with MHD_queue_response outside the handler"
                        % (nplace_all, "each in both polling modes, with and without URI-log callback" if thorough else
                           "polling mode and URI-log registration alternate from point to point"),
-               "samples": [cases[ncorp + nfault + noutq].lines if len(cases) > ncorp + nfault + noutq else [], cases[-1].lines],
-               "placements": npl, "outside_handler_reply_scripts": noutq, "placement_grid_per_mode": nplace_all, "random_histories": nrand, "fault_scripts": nfault,
+               "samples": [cases[ncorp + nfault + noutq + npool].lines if len(cases) > ncorp + nfault + noutq + npool else [], cases[-1].lines],
+               "placements": npl, "outside_handler_reply_scripts": noutq, "pool_nearly_full_error_reply_histories (oracle only)": npool, "placement_grid_per_mode": nplace_all, "random_histories": nrand, "fault_scripts": nfault,
                "corpus": ncorp, "exhaustive": True,
                "exhaustive_domain": "the placement grid (shape x phase x mid x action x handler behaviour); modes x URI-log fully only in the thorough tier",
                "outcomes": {"completion_codes": stats["codes"], "settled_states": stats["states"], "handler_call_tokens": stats["handler_calls"],
                             "oracle_rejects": stats["oracle_rejects"], "canonical_diffs": stats["diffs"],
+                            "oracle_only_histories": stats["oracle_only"],
+                            "of_these_reaching_the_release_everything_branch": stats["release_everything_hits"],
                             "strict_partition_drift (reported, not an alarm)": stats["strict_drift"]}}
         return failures, cov
 
@@ -907,7 +948,8 @@ def replay(ctx, path):
     lines = r["input"] if "input" in r else r.get("disagreements", [{}])[0].get("input", [])
     cs.lines = ["case replay"] + [l for l in lines if not l.startswith("case ")]
     fl = []
-    st = {"cases": 0, "oracle_rejects": 0, "diffs": 0, "strict_drift": 0, "codes": {}, "states": {}, "sigs": set(), "handler_calls": 0}
+    st = {"cases": 0, "oracle_rejects": 0, "diffs": 0, "strict_drift": 0, "codes": {}, "states": {}, "sigs": set(), "handler_calls": 0,
+          "oracle_only": 0, "release_everything_hits": 0}
     sp.run_batch([cs], fl, st)
     hout, _, _ = vlib.run_lines(sp.harness, cs.lines)
     mout, _, _ = vlib.run_lines(sp.driver, cs.lines)
